@@ -29,6 +29,9 @@ mod tag;
 mod uint24;
 mod version;
 
+#[cfg(fontations_verif)]
+pub mod verif_hooks;
+
 #[cfg(all(test, feature = "serde"))]
 mod serde_test;
 
